@@ -22,6 +22,7 @@ from ..core import Check, Outcome, crash, fail
 
 OPS = {"==": operator.eq, "!=": operator.ne, "<": operator.lt, "<=": operator.le, ">": operator.gt, ">=": operator.ge}
 CMP_SCALARS = ("int", "float", "str", "bool")
+OPTIONAL_SCALARS = True  # optional scalar columns can hold NULL
 
 
 def scalar_paths(model, ci, max_hops=2):
@@ -35,6 +36,8 @@ def scalar_paths(model, ci, max_hops=2):
             t = f["t"]
             if t["k"] in CMP_SCALARS:
                 out.append((path + [f["name"]], t["k"]))
+            elif OPTIONAL_SCALARS and t["k"] == "opt" and t["of"]["k"] in CMP_SCALARS:
+                out.append((path + [f["name"]], t["of"]["k"]))  # the column can hold NULL
             elif t["k"] == "ref" and hops < max_hops:
                 rec(t["c"], path + [f["name"]], hops + 1)
             elif t["k"] == "opt" and t["of"]["k"] == "ref" and hops < max_hops:
@@ -247,6 +250,7 @@ class C07(Check):
         "attribute paths are only compared on data where no reference along the path is None for any object of the domain (plain Python would raise; in memory only a short circuit may hide it, SQL uses inner joins)",
         "the second variable of a two-variable query has a non-empty domain (otherwise the in-memory answer is the C01 empty-domain finding)",
         "queries whose in-memory evaluation raises (attribute of None on an optional reference, incomparable None) are outside the comparison",
+        "the(...) over an or_ whose operands range over different variable sets is not judged (a union produces one solution twice in memory; outside C02's fragment)",
         "comparisons use non-optional scalar fields; strings are compared by code point (SQLite BINARY collation agrees for UTF-8)",
         "SQLite only",
     ]
@@ -383,6 +387,15 @@ class C07(Check):
                             if v is None:
                                 skip = "path_over_none_reference"  # plain Python would raise; only short circuits hide it
                                 break
+                if not skip and q["quant"] == "the" and q["var2"] is not None:
+                    # or_ between operands over different variable sets is a union in memory and can produce one solution
+                    # twice (outside C02's fragment): then the(...) fails in memory for a single solution. Such queries
+                    # are not judged.
+                    def mentions_y(z):
+                        return any("rpath" in m for m in walk(z))
+
+                    if any(n["c"] == "or" and len({mentions_y(z) for z in n["xs"]}) == 2 for c in q["conds"] for n in walk(c)):
+                        skip = "the_over_a_union"
                 if skip:
                     classes_.add("skipped_" + skip)
                     C07._memraise += 1
